@@ -438,5 +438,29 @@ pub fn run(e: &'static Engine) {
         }));
     }
     e.par(jobs);
+    // large symbols with steered content (whole dark rows crossing the 64- and 128-column marks, long runs, uniform
+    // rectangles) rendered with the square shape at 1 and 2 pixels per module: every pixel is compared
+    let total: u32 = e.tier.pick(96, 1920);
+    let mut jobs: Vec<Job> = Vec::new();
+    for _ in 0..shards {
+        jobs.push(Box::new(move |jc: &mut JobCtx| {
+            let strat = (crate::gens::steered_case(26, 40, true), prop_oneof![Just(None), Just(Some(0usize))], any::<bool>(), any::<bool>()).prop_map(|((build, _), shape, twice, explicit)| {
+                let v = build.opts.version.unwrap_or(40);
+                let s = (size(v) + 8) as u32;
+                Case {
+                    build,
+                    cfg: SvgCfg { layers: shape.map(|s| vec![(s, if explicit { Some(ColorSpec::Rgb([0, 0, 0])) } else { None })]).unwrap_or_default(), ..SvgCfg::default() },
+                    fit: if twice { Fit::Width(2 * s) } else { Fit::Original },
+                    fit_order: 0,
+                    pre_fits: Vec::new(),
+                }
+            });
+            jc.run_prop(3 << 20, &strat, (total / shards).max(1), to_json, |c, o| {
+                o.label("part:steered_large");
+                check(c, o)
+            });
+        }));
+    }
+    e.par(jobs);
     e.set_exhaustive(false, "6 shapes x the listed versions x margins {0,1,4} are enumerated; colours, fits and payloads are sampled");
 }
